@@ -124,6 +124,11 @@ def build_traces(path, tier, seed):
         arr = ds.c_h_factor(np.array(periods), site)
         for T, a in zip(periods, arr):
             add({"kind": "cont", "lo": enc(a), "hi": enc(ds.c_h_factor(float(T), site))}, {"kind": "cont", "site": site, "T": T, "what": "array vs scalar"})
+        for container in (np.arange(0, 6), [1, 2, 3, 4], np.array([0, 1, 3], dtype=np.int32), [0.5, 2]):
+            arr = ds.c_h_factor(container, site)
+            for T, a in zip(list(container), arr):
+                add({"kind": "cont", "lo": enc(a), "hi": enc(ds.c_h_factor(float(T), site))},
+                    {"kind": "cont", "site": site, "T": float(T), "what": "integer-typed period container vs scalar float"})
         for b in [0.0] + bounds[site]:
             lo_t, hi_t = (0.0, 1e-9) if b == 0.0 else (b * (1 - 1e-9), b * (1 + 1e-9))
             add({"kind": "cont", "lo": enc(ds.c_h_factor(lo_t, site)), "hi": enc(ds.c_h_factor(hi_t, site))}, {"kind": "cont", "site": site, "boundary": b, "fn": "c_h_factor"})
